@@ -543,6 +543,8 @@ class FixedWidthBinning(BinningBase):
                 values, includes_right_edge=includes_right_edge
             )
         else:
+            if np.size(values) == 0:
+                return None  # Nothing to make room for
             min_, max_ = np.min(values), np.max(values)
             result = self._force_bin_existence_single(min_)
             result2 = self._force_bin_existence_single(
